@@ -22,6 +22,20 @@ pub struct LookupCase {
 fn derive_us(z: &MZone, model: &ZoneModel, seeds: &[i64]) -> Vec<i64> {
     let mut v: Vec<i64> = vec![i64::MIN, i64::MIN + 1, i64::MAX, i64::MAX - 1, 0, cal::min_unix(), cal::max_unix(), cal::min_unix() - 1, cal::max_unix() + 1];
     v.extend_from_slice(seeds);
+    // instants governed by a trailing DST rule: its start/end instants of the years following the table, -30..+1 s (a leap table shifts
+    // the two time scales by up to its correction: the rule must still be read on UTC instants)
+    if let (MTrailer::Alt(r), Some(&(t_last, _))) = (&z.trailer, z.trans.last()) {
+        if t_last > cal::min_unix() && t_last < cal::max_unix() - 400_000_000 {
+            let y = cal::civil_from_unix(t_last as i128).y;
+            for yy in [y + 1, y + 2, y + 7] {
+                for base in [r.s(yy), r.e(yy)] {
+                    for d in [-30i64, -28, -27, -26, -3, -2, -1, 0, 1] {
+                        v.push(base + d);
+                    }
+                }
+            }
+        }
+    }
     for (i, &(t, _)) in z.trans.iter().enumerate() {
         for d in -1..=1i64 {
             if let Some(x) = t.checked_add(d) {
@@ -201,6 +215,21 @@ pub fn run(ctx: &Ctx) -> Outcome {
     let strat = (prop_oneof![4 => gens::arb_zone(ZoneCfg { max_trans: 24, leaps: true, wide_times: true }), 1 => gens::arb_aligned_zone(), 2 => gens::arb_leap_adjacent_zone()], proptest::collection::vec(gens::arb_unix_time(), 0..6)).prop_map(|(zone, seeds)| LookupCase { zone, us: vec![], seeds });
     let cases = ctx.tier.pick(4_000u32, 150_000u32);
     let rs = par_shards(16, |shard, st| pt_shard(ctx, "lookup", shard, cases, &strat, st, check_lookup));
+    out.absorb_all(rs);
+    if out.failure.is_some() {
+        return out;
+    }
+    // more local time types than a one-byte index can address (the constructors take usize indices)
+    let rs = par_shards(1, |_, st| {
+        for n in [257usize, 300, 600] {
+            let types: Vec<MLtt> = (0..n).map(|k| MLtt::new(k as i32 * 7 - 900, k % 2 == 1, Some(["AAA", "BBBB", "CC-03"][k % 3]))).collect();
+            let trans: Vec<(i64, usize)> = (0..n).map(|k| (k as i64 * 100, n - 1 - k)).collect();
+            let c = LookupCase { zone: MZone { trans, types, leaps: vec![], trailer: MTrailer::None }, us: vec![], seeds: vec![] };
+            check_enum("lookup", &c, st, check_lookup)?;
+            st.class("zones_with_more_than_256_types");
+        }
+        Ok(())
+    });
     out.absorb_all(rs);
     if out.failure.is_some() {
         return out;
